@@ -484,7 +484,7 @@ func (g *Gen) lockTx() {
 	w := g.w
 	src := g.pickEOA()
 	bal := new(big.Int).Div(w.adb.GetBalance(src), oneRPG).Uint64()
-	n := uint64(g.r.Pick(0, 1, 399, 400, 401, 1999, 2000, 2001))
+	n := uint64(g.r.Pick(0, 399, 400, 400, 401, 1999, 2000, 2000, 2001))
 	switch g.r.Intn(4) {
 	case 0:
 		n = bal
@@ -494,6 +494,10 @@ func (g *Gen) lockTx() {
 		if bal > 0 {
 			n = bal - 1
 		}
+	}
+	if w.srcInQueue(src) {
+		g.operatorTx()
+		return
 	}
 	apply := g.r.Chance(2, 3) || len(w.miners) == 0
 	// a pending (same block) apply for this account makes the registry outcome order-dependent: keep one per block
@@ -507,6 +511,31 @@ func (g *Gen) lockTx() {
 		spoil = 1 + g.r.Intn(2)
 	}
 	w.QueueLock(g, src, n, apply, spoil)
+}
+
+// srcInQueue: the address is the sender of a queued lock/node transaction of the current block
+// (their registry outcomes would depend on each other; keep one per sender and block)
+func (w *World) srcInQueue(a common.Address) bool {
+	for _, q := range w.queue {
+		if (q.feat["lock"] || q.feat["node"]) && common.HexToAddress(q.tx.Source) == a {
+			return true
+		}
+	}
+	return false
+}
+
+// nodeTx: OperatorNode transaction, mostly from an account that owns a miner.
+func (g *Gen) nodeTx() {
+	w := g.w
+	src := g.pickEOA()
+	if len(w.miners) > 0 && g.r.Chance(4, 5) {
+		src = w.miners[g.r.Intn(len(w.miners))].account
+	}
+	if w.srcInQueue(src) {
+		g.operatorTx()
+		return
+	}
+	w.QueueNode(src)
 }
 
 func (g *Gen) refund() {
